@@ -18,11 +18,16 @@ import (
 	"sort"
 	"strconv"
 	"strings"
+	"sync"
 	"syscall"
 	"time"
 )
 
 type ufsFid struct {
+	// Treads pipelined on one fid are served by concurrent goroutines; a
+	// directory read closes, reopens and re-lists the directory, so only
+	// one of them at a time may use the fid's file and listing.
+	dirlock    sync.Mutex
 	path       string
 	file       *os.File
 	dirs       []os.FileInfo
@@ -500,6 +505,8 @@ func (*Ufs) Read(req *SrvReq) {
 	var count int
 	var e error
 	if fid.st.IsDir() {
+		fid.dirlock.Lock()
+		defer fid.dirlock.Unlock()
 		if tc.Offset == 0 {
 			var e error
 			// If we got here, it was open. Can't really seek
